@@ -41,7 +41,7 @@ mod verif_kani {
         core::mem::forget(meta);
     }
 
-    //@harness props=C20,C12 kind=bounded fns=RuleMetadata::should_apply bound="0..=2 apply filters x 0..=2 skip filters (all 9 shapes), abstract match relation: one symbolic-but-fixed boolean per filter; FilterPattern::matches stubbed" budget=300
+    //@harness props=C20,C12 kind=bounded fns=RuleMetadata::should_apply bound="0..=2 apply filters x 0..=2 skip filters (all 9 shapes), abstract match relation: one symbolic-but-fixed boolean per filter; FilterPattern::matches stubbed" budget=400
     //@ desc="should_apply(path) <==> (apply filters empty or some apply filter matches) and no skip filter matches, for every outcome of the match relation"
     #[kani::proof]
     #[kani::unwind(4)]
